@@ -16,6 +16,12 @@ LEMMA DivDef == ASSUME NEW a \in Nat, NEW b \in Nat \ {0}
                        /\ a \div b <= a
   OBVIOUS
 
+LEMMA MulMono == ASSUME NEW a \in Nat, NEW b \in Nat, NEW c \in Nat, a <= b PROVE c * a <= c * b /\ a * c <= b * c
+  BY Z3T(30)
+LEMMA Dist == ASSUME NEW a \in Int, NEW b \in Int
+              PROVE (a + 1) * b = b * (a + 1) /\ ((a + 1) - 1) * b = b * a /\ b * (a + 1) = b * a + b
+  BY Z3T(30)
+
 \* the nesting lemma of C10: a larger rate has a smaller threshold
 LEMMA DivMono == ASSUME NEW a \in Nat, NEW M \in Nat \ {0}, NEW N \in Nat \ {0}, M <= N
                  PROVE  a \div N <= a \div M
@@ -25,9 +31,11 @@ LEMMA DivMono == ASSUME NEW a \in Nat, NEW M \in Nat \ {0}, NEW N \in Nat \ {0},
 <1>2 y \in Nat /\ N * y <= a /\ a < N * (y + 1)  BY DivDef
 <1>3 SUFFICES ASSUME x + 1 <= y PROVE FALSE
   BY <1>1, <1>2
-<1>4 M * (x + 1) <= M * y  BY <1>1, <1>2, <1>3
-<1>5 M * y <= N * y  BY <1>2
-<1> QED BY <1>1, <1>2, <1>4, <1>5
+<1>4 M * (x + 1) <= M * y  BY <1>1, <1>2, <1>3, MulMono
+<1>5 M * y <= N * y  BY <1>2, MulMono
+<1> HIDE DEF x, y
+<1>6 M * (x + 1) \in Int /\ M * y \in Int /\ N * y \in Int  BY <1>1, <1>2
+<1> QED BY <1>1, <1>2, <1>4, <1>5, <1>6
 
 LEMMA Div1 == ASSUME NEW a \in Nat PROVE a \div 1 = a
   OBVIOUS
@@ -155,8 +163,11 @@ THEOREM IndSafeArith == IndInv => SafetyArith /\ ArithNested
              q == H \div r
   <2>1 r \in Nat \ {0}  BY StartedFacts
   <2>2 q \in Nat /\ r * q <= H /\ H < r * (q + 1)  BY <2>1, DivDef
-  <2>3 (q + 1) * r = r * (q + 1) /\ ((q + 1) - 1) * r = r * q  BY <2>1, <2>2
-  <2> QED BY <2>1, <2>2, <2>3
+  <2>3 (q + 1) * r = r * (q + 1) /\ ((q + 1) - 1) * r = r * q  BY <2>1, <2>2, Dist
+  <2> HIDE DEF r, q
+  <2>4 r * (q + 1) \in Int /\ r * q \in Int  BY <2>1, <2>2
+  <2>5 (q + 1) * r > H + 1 - r /\ ((q + 1) - 1) * r <= H  BY <2>1, <2>2, <2>3, <2>4
+  <2> QED BY <2>5 DEF r, q
 <1> QED BY <1>1, <1>2, <1>3, <1>4 DEF SafetyArith
 
 \* the kept part of the hash space has exactly H \div N + 1 values
@@ -172,9 +183,14 @@ THEOREM IndKeptCount == IndInv => ArithKeptCount
   <2>2 Cardinality(0..H) = H + 1  BY FS_Interval
   <2> QED BY <1>1, <2>1, <2>2
 <1>2 CASE rate[i] > 1
-  <2>1 {hh \in 0..H : Keep(hh, rate[i], H)} = 0..(H \div rate[i])  BY <1>0, <1>2 DEF Keep
-  <2>2 Cardinality(0..(H \div rate[i])) = H \div rate[i] + 1  BY <1>0, FS_Interval
-  <2> QED BY <1>2, <2>1, <2>2
+  <2> DEFINE q == H \div rate[i]
+  <2>0 q \in Nat /\ q <= H  BY <1>0
+  <2>1 {hh \in 0..H : Keep(hh, rate[i], H)} = 0..q  BY <1>0, <1>2 DEF Keep
+  <2> HIDE DEF q
+  <2>2 Cardinality(0..q) = q - 0 + 1  BY <2>0, FS_Interval
+  <2>3 Cardinality(0..q) = q + 1  BY <2>0, <2>2
+  <2>4 Cardinality({hh \in 0..H : Keep(hh, rate[i], H)}) = q + 1  BY <2>1, <2>3
+  <2> QED BY <1>0, <1>2, <2>4 DEF q
 <1> QED BY <1>0, <1>1, <1>2
 
 ----------------------------------------------------------------------------
